@@ -56,10 +56,11 @@ FxClause(c, r, cert) ==
   IF \E e \in EntriesFx(c) :
        LET lo == DLower(c.ag, cert, e[1], e[2], 40)
            pad == PadFor(c, cert, e, lo)
-           glo == FoldSet(LAMBDA ea, acc: acc + CotAt(c, ea) * lo[S(c)][ea], 0, StartAssts(c))
-           ghi == FoldSet(LAMBDA ea, acc: acc + CotAt(c, ea) * (lo[S(c)][ea] + pad), 0, StartAssts(c))
+           \* cotangents are signed: a negative one turns the enclosure of its term around
+           glo == FoldSet(LAMBDA ea, acc: acc + CotAt(c, ea) * (lo[S(c)][ea] + (IF CotAt(c, ea) < 0 THEN pad ELSE 0)), 0, StartAssts(c))
+           ghi == FoldSet(LAMBDA ea, acc: acc + CotAt(c, ea) * (lo[S(c)][ea] + (IF CotAt(c, ea) < 0 THEN 0 ELSE pad)), 0, StartAssts(c))
            o == r.grads[e[1]][e[2]]
-       IN pad > 0 /\ (IF IsAbsent(o) THEN glo > 2 ELSE (o[2] + 2 < glo \/ o[1] - 2 > ghi))
+       IN pad > 0 /\ (IF IsAbsent(o) THEN (glo > 2 \/ ghi < -2) ELSE (o[2] + 2 < glo \/ o[1] - 2 > ghi))
   THEN "GradientIsTheTrueDerivative" ELSE "ok"
 
 \* Log semiring on a certified grid grammar with SCALAR start symbol: d log Z / d log w = w (dZ/dw) / Z.
@@ -72,11 +73,12 @@ FxLogClause(c, r, cert) ==
        LET lo == DLower(c.ag, cert, e[1], e[2], 40)
            pad == PadFor(c, cert, e, lo)
            w == c.ag.wfx[e[1]][e[2]]
-           a == w * lo[S(c)][<<>>]
-           b == w * (lo[S(c)][<<>>] + pad)
+           k == CotAt(c, <<>>)            \* signed cotangent of the scalar start symbol
+           a == IF k >= 0 THEN k * w * lo[S(c)][<<>>] ELSE k * w * (lo[S(c)][<<>>] + pad)
+           b == IF k >= 0 THEN k * w * (lo[S(c)][<<>>] + pad) ELSE k * w * lo[S(c)][<<>>]
            o == r.grads[e[1]][e[2]]
-           slack == 3 * Z + 3 * w
-       IN pad > 0 /\ (IF IsAbsent(o) THEN a > slack ELSE (o[2] * Z + slack < a \/ o[1] * Z - slack > b))
+           slack == (3 * Z + 3 * w) * BMax(1, BAbs(k))
+       IN pad > 0 /\ (IF IsAbsent(o) THEN (a > slack \/ b < -slack) ELSE (o[2] * Z + slack < a \/ o[1] * Z - slack > b))
   THEN "LogGradientIsTheDerivativeOfLogZ" ELSE "ok"
 
 Verdict(c) ==
